@@ -616,6 +616,10 @@ impl IQLEngine {
             }
         }
 
+        // Recursion through negation has no stratified model: reject it here, for every
+        // way rules can reach the engine (inline, session rules, persistent rules, mixes)
+        rule_catalog::validate_rules_stratification(&program.rules)?;
+
         // Recursion detection
         self.has_recursion = recursion::has_recursion(&program);
 
